@@ -31,3 +31,8 @@ package lib
 //@ lib func utf8.RuneLen(r rune) (n int)
 //@   pure
 //@   ensures n == RuneLenSpec(r)
+
+//@ lib func errors.New(text string) (e error)
+//@   ensures e != nil
+//@ lib func fmt.Errorf(format string, a []any) (e error)
+//@   ensures e != nil
